@@ -25,6 +25,17 @@ from pedal.sandbox.timeout import timeout
 from pedal.sandbox.result import SandboxResult
 from pedal.sandbox.tracer import TRACER_STYLES
 
+try:
+    from threading import RLock
+except BaseException:
+    class RLock:
+        """ Stand-in for platforms without threads (and therefore without timeouts). """
+        def __enter__(self):
+            return self
+
+        def __exit__(self, *exc_info):
+            return False
+
 
 def _contains_non_finite_float(value):
     """
@@ -93,6 +104,9 @@ class Sandbox:
         # Patching
         self._current_patches = []
         self._current_stdout = []
+        # Serializes the end of an execution between the thread running student
+        # code and the caller that may give up on it after a timeout
+        self._execution_lock = RLock()
         # Temporary Variables
         self._temporary_variables = set()
         self._backup_variables = {}
@@ -170,13 +184,30 @@ class Sandbox:
         Returns:
             :py:class:`pedal.sandbox.sandbox.Sandbox`
         """
+        first_new_context = len(self._context)
+
+        def abandon_execution():
+            """ From now on, the thread running the student code must not
+            touch the patches, the output or the recorded exception. """
+            with self._execution_lock:
+                for context in self._context[first_new_context:]:
+                    if not context.finished:
+                        context.abandoned = True
+
         try:
             return timeout(self.allowed_time, self._execute,
-                           code, filename, kind, False, **meta)
+                           code, filename, kind, False,
+                           on_timeout=abandon_execution, **meta)
         except TimeoutError as timeout_exception:
-            self._stop_patches()
-            self._capture_exception(timeout_exception, sys.exc_info(),
-                                    code, filename)
+            with self._execution_lock:
+                abandoned = [context for context in self._context[first_new_context:]
+                             if context.abandoned]
+                if abandoned:
+                    # Keeps whatever was printed before the time ran out
+                    self._stop_mocking(abandoned[-1])
+                    self._next_context_id += 1
+                self._capture_exception(timeout_exception, sys.exc_info(),
+                                        code, filename)
             return self
 
     def _execute(self, code, filename, kind, threaded, **meta):
@@ -201,25 +232,43 @@ class Sandbox:
             with self.trace.as_filename(filename, code):
                 exec(compiled_code, self.data)
         except Exception as user_exception:
-            self._stop_mocking(context)
-            self._capture_exception(user_exception, sys.exc_info(),
-                                    code, filename)
+            finished = self._finish_execution(context, user_exception, sys.exc_info(),
+                                              code, filename)
         # NOTE: https://docs.python.org/3/library/exceptions.html#SystemExit
         # This exception does not inherit from Exception and has to be caught separately
         except SystemExit as system_exit:
-            self._stop_mocking(context)
-            self._capture_exception(system_exit, sys.exc_info(),
-                                    code, filename)
+            finished = self._finish_execution(context, system_exit, sys.exc_info(),
+                                              code, filename)
         except BaseException:
             # KeyboardInterrupt, GeneratorExit and the like are not reported,
             # but the patches must not outlive the execution
-            self._stop_mocking(context)
+            self._finish_execution(context, None, None, code, filename)
             raise
         else:
-            self._stop_mocking(context)
+            finished = self._finish_execution(context, None, None, code, filename)
 
-        self._next_context_id += 1
+        if finished:
+            self._next_context_id += 1
         return self
+
+    def _finish_execution(self, context, exception, exc_info, code, filename):
+        """
+        Turn off the patches, store the output and record the ``exception`` (if
+        any) of an execution that has ended - unless the caller already gave
+        up on it after a timeout, in which case all of that was done by the
+        caller and this (abandoned) thread must leave the sandbox alone.
+
+        Returns:
+            bool: Whether the execution was still this thread's to finish.
+        """
+        with self._execution_lock:
+            if context.abandoned:
+                return False
+            context.finished = True
+            self._stop_mocking(context)
+            if exception is not None:
+                self._capture_exception(exception, exc_info, code, filename)
+            return True
 
     def run(self, code=None, filename=None, inputs=None, threaded=None,
             after=None, before=None, real_io=False):
